@@ -268,6 +268,9 @@ func runStrategyScenario(c *fw.Case, prop string) {
 		s.report(prop, rf, extra)
 		c.Count("store_reads_compared", int64(compared))
 		c.Count("module_executions_observed", int64(execs))
+		df, dc := sim.CheckDebugOutputs(res, ref, s.pkg)
+		s.report(prop, df, extra)
+		c.Count("debug_outputs_compared", int64(dc))
 		sf, sc := sim.CheckInitialSnapshots(res, ref, s.pkg)
 		s.report(prop, sf, extra)
 		c.Count("initial_snapshots_compared", int64(sc))
